@@ -337,8 +337,8 @@ fn must_reject(text: &str, what: &str, rep: &mut Report) {
     );
 }
 
-/// C07: the right operand of `&&` / `||` is evaluated only when the left one does not decide - also by the folding
-/// pass: a constant left operand that decides guards a right operand that would fail (or have effects) if evaluated
+/// C07: the right operand of `&&` / `||` is evaluated only when the left one does not decide: its effects must not
+/// happen and its run-time failure must not surface (a parse-time report of a constant failure is C04's allowance)
 fn short_circuit_templates(rep: &mut Report) {
     let cases: [(&str, &str); 18] = [
         ("false && (1 / 0 > 1)", "false"),
@@ -368,8 +368,50 @@ fn short_circuit_templates(rep: &mut Report) {
             Outcome::Value(v) => canon(v),
             other => other.tag(),
         };
-        if got != want {
+        // C04 permits reporting an operation on constants that always fails at parse time "even if the hidden-constant
+        // twin would not reach it": such a rejection is not judged; a wrong value, or effects of the guarded operand, are
+        if got.starts_with("rejected-runtime-error:") {
+            rep.count("short-circuit-templates:permitted-parse-time-error");
+        } else if got != want {
             rep.violation(&format!("c07:short-circuit-template:{}", truncate(src, 60)), &format!("`{src}` gave {got}, expected {want} (the deciding left operand guards the right one)"), "diff", &format!("#template {want}\n{src}\n"));
+        }
+    }
+}
+
+/// C12: only the chosen branch is run (value-level templates around guarded operations)
+fn dead_branch_templates(rep: &mut Report) {
+    let cases: [(&str, &str); 16] = [
+        ("d := 0; r := if d != 0 { 10 / d } else { 0 - 1 }; r", "-1"),
+        ("d := 0; r := if d == 0 { 0 - 1 } else { 10 / d }; r", "-1"),
+        ("d := 0; r := if d > 0 { 1 } else if d < 0 { 10 % d } else { 3 }; r", "3"),
+        ("a := [1]; i := 5; r := if i < 1 { a[i] } else { 0 }; r", "0"),
+        ("s := 70; r := if s < 64 { 1 << s } else { 0 }; r", "0"),
+        ("e := 0 - 1; r := if e >= 0 { 2 ** e } else { 0 }; r", "0"),
+        ("d := 0; f := () -> int { return if d != 0 { 10 / d } else { 7 } }; f()", "7"),
+        ("mk := (d: int) -> () -> int { return () -> int { return if d != 0 { 10 / d } else { 7 } } }; (mk(0)(), mk(5)())", "(7, 2)"),
+        ("d := 0; c := mut 0; while d != 0 { c += 10 / d; }; *c", "0"),
+        ("d := 0; r := match d { 0 => 1, => 10 / d, }; r", "1"),
+        ("d := 2; r := match d { 0 => 10 / (d - 2), => 5, }; r", "5"),
+        ("u := [1, \"s\"][0]; r := if x: string = u { 10 / 0 } else { 4 }; r", "4"),
+        ("d := 0; r := if d != 0 { [1][5] } else { 9 }; r", "9"),
+        ("d := 0; if d != 0 { x := 10 / d; }; 6", "6"),
+        ("d := 0; r := if true { 1 } else { 10 / d }; r", "1"),
+        ("d := 0; r := if false { 10 / d } else { 2 }; r", "2"),
+    ];
+    for (src, want) in cases {
+        rep.evaluations += 1;
+        rep.count("dead-branch-templates");
+        let run = run_real(src, FUEL);
+        let got = match &run.outcome {
+            Outcome::Value(v) => canon(v),
+            other => other.tag(),
+        };
+        // (a parse-time report of a constant operation that always fails is permitted by C04 even in a branch that is
+        // never taken; only a wrong value is judged)
+        if got.starts_with("rejected-runtime-error:") {
+            rep.count("dead-branch-templates:permitted-parse-time-error");
+        } else if got != want {
+            rep.violation(&format!("c12:dead-branch-template:{}", truncate(src, 60)), &format!("`{src}` gave {got}, expected {want} (only the chosen branch is run)"), "diff", &format!("#template {want}\n{src}\n"));
         }
     }
 }
@@ -378,6 +420,9 @@ pub fn run(cfg: &Cfg, rep: &mut Report, spec: &Spec) {
     let deadline = Deadline::new(cfg.budget_s);
     if spec.prop == "C07" && cfg.shard == 0 {
         short_circuit_templates(rep);
+    }
+    if spec.prop == "C12" && cfg.shard == 0 {
+        dead_branch_templates(rep);
     }
     if spec.prop == "C13" && cfg.shard == 0 {
         cell_negative_templates(rep);
@@ -454,8 +499,9 @@ pub fn replay(cfg: &Cfg, payload: &str, rep: &mut Report, spec: &Spec) {
             Outcome::Value(v) => canon(v),
             other => other.tag(),
         };
-        if got != want.trim() {
-            rep.violation(&format!("c07:short-circuit-template:{}", truncate(&src, 60)), &format!("`{src}` gave {got}, expected {want}"), "diff", payload);
+        if got != want.trim() && !got.starts_with("rejected-runtime-error:") {
+            let family = if spec.prop == "C12" { "c12:dead-branch-template" } else { "c07:short-circuit-template" };
+            rep.violation(&format!("{family}:{}", truncate(&src, 60)), &format!("`{src}` gave {got}, expected {want}"), "diff", payload);
         }
         return;
     }
